@@ -261,6 +261,19 @@ pub fn audit(vm: &Vm) -> AuditReport {
         }
         // I2 no garbage survives
         if allocated && !conservative[i] {
+            if std::env::var("VERIF_AUDIT_DEBUG").is_ok() {
+                let mut who = vec![];
+                let mut tmp = vec![];
+                let mut lc = 0usize;
+                for (j, c) in cells.iter().enumerate() {
+                    tmp.clear();
+                    refs_of(c, false, &mut tmp, &mut lc);
+                    if tmp.contains(&i) {
+                        who.push(format!("{}:{}:{:?}:reach={}", j, kind_name(c), heap.verif_gc_state(j), conservative[j]));
+                    }
+                }
+                eprintln!("I2 cell {} {:?} referrers {:?}", i, cells[i], who);
+            }
             push(
                 &mut report,
                 Finding {
